@@ -1313,6 +1313,16 @@ let exec_script skip rs =
      | Some i -> ExSkipped i
      | None -> ExOk rs)
 
+(** val before_stop : rstep list -> rstep list **)
+
+let rec before_stop = function
+| [] -> []
+| r :: t ->
+  (match r.status with
+   | Code _ -> r :: (before_stop t)
+   | EDetached -> r :: (before_stop t)
+   | _ -> [])
+
 (** val produced : rstep list -> nat option -> rstep list **)
 
 let produced rs = function
@@ -1323,15 +1333,15 @@ let produced rs = function
 
 let exec_script2 skip rs early =
   let p = produced rs early in
-  (match script_first_stop p with
-   | Some r ->
-     (match r.status with
-      | TimedOut -> ExTimeout (true, (r :: []))
-      | ESkipped -> ExSkipped O
-      | _ -> ExFailed O)
+  (match find_skip skip (before_stop p) O with
+   | Some i -> ExSkipped i
    | None ->
-     (match find_skip skip p O with
-      | Some i -> ExSkipped i
+     (match script_first_stop p with
+      | Some r ->
+        (match r.status with
+         | TimedOut -> ExTimeout (true, (r :: []))
+         | ESkipped -> ExSkipped O
+         | _ -> ExFailed O)
       | None -> (match early with
                  | Some _ -> ExFailed O
                  | None -> ExOk rs)))
@@ -8136,14 +8146,20 @@ let needs_u_escape c =
   (||)
     ((||)
       ((||)
-        ((||) (N.ltb c (Npos (XO (XO (XO (XO (XO XH)))))))
-          ((&&) (N.leb (Npos (XI (XI (XI (XI (XI (XI XH))))))) c)
-            (N.leb c (Npos (XI (XI (XI (XI (XI (XO (XO XH)))))))))))
-        (N.eqb c (Npos (XO (XO (XO (XI (XO (XI (XO (XO (XO (XO (XO (XO (XO
-          XH))))))))))))))))
-      (N.eqb c (Npos (XI (XO (XO (XI (XO (XI (XO (XO (XO (XO (XO (XO (XO
-        XH))))))))))))))))
-    (N.eqb c (Npos (XI (XI (XI (XI (XI (XI (XI (XI (XO (XI (XI (XI (XI (XI
+        ((||)
+          ((||)
+            ((||) (N.ltb c (Npos (XO (XO (XO (XO (XO XH)))))))
+              ((&&) (N.leb (Npos (XI (XI (XI (XI (XI (XI XH))))))) c)
+                (N.leb c (Npos (XI (XI (XI (XI (XI (XO (XO XH)))))))))))
+            (N.eqb c (Npos (XO (XO (XO (XI (XO (XI (XO (XO (XO (XO (XO (XO
+              (XO XH))))))))))))))))
+          (N.eqb c (Npos (XI (XO (XO (XI (XO (XI (XO (XO (XO (XO (XO (XO (XO
+            XH))))))))))))))))
+        (N.eqb c (Npos (XI (XI (XI (XI (XI (XI (XI (XI (XO (XI (XI (XI (XI
+          (XI (XI XH))))))))))))))))))
+      (N.eqb c (Npos (XO (XI (XI (XI (XI (XI (XI (XI (XI (XI (XI (XI (XI (XI
+        (XI XH))))))))))))))))))
+    (N.eqb c (Npos (XI (XI (XI (XI (XI (XI (XI (XI (XI (XI (XI (XI (XI (XI
       (XI XH)))))))))))))))))
 
 (** val hex4 : n -> n list **)
@@ -10425,26 +10441,38 @@ let parse_divider line =
       | None -> Bad)
    | None -> NotFound)
 
-(** val iterate : n list list -> n list -> n -> (n list * z) list option **)
+(** val parse_salted : n list -> n list -> dsearch **)
 
-let rec iterate lines buffer expected0 =
+let parse_salted salt line =
+  let line0 = trim_nl line in
+  (match find_sub (app pREFIX (app salt cOLONS)) line0 with
+   | Some i ->
+     (match parse_divider (skipn i line0) with
+      | Found (_, n0, c) -> Found ((firstn i line0), n0, c)
+      | x -> x)
+   | None -> NotFound)
+
+(** val iterate :
+    n list -> n list list -> n list -> n -> (n list * z) list option **)
+
+let rec iterate salt lines buffer expected0 =
   match lines with
   | [] -> Some []
   | l :: r ->
-    (match parse_divider l with
-     | NotFound -> iterate r (app buffer l) expected0
+    (match parse_salted salt l with
+     | NotFound -> iterate salt r (app buffer l) expected0
      | Found (prefix, idx, code) ->
        if N.eqb idx expected0
-       then (match iterate r [] (N.add expected0 (Npos XH)) with
+       then (match iterate salt r [] (N.add expected0 (Npos XH)) with
              | Some rest -> Some (((app buffer prefix), code) :: rest)
              | None -> None)
        else None
      | Bad -> None)
 
-(** val split_outputs : n list -> (n list * z) list option **)
+(** val split_outputs : n list -> n list -> (n list * z) list option **)
 
-let split_outputs stream =
-  iterate (split_lines stream) [] N0
+let split_outputs salt stream =
+  iterate salt (split_lines stream) [] N0
 
 (** val divider_line : n list -> n -> z -> n list **)
 
@@ -11775,6 +11803,29 @@ let quantifier_body s =
                | _ -> None)
             | XH -> None))))
 
+(** val takes_braces : n -> bool **)
+
+let takes_braces c =
+  (||)
+    ((||)
+      ((||)
+        ((||) (N.eqb c (Npos (XO (XO (XO (XO (XI (XI XH))))))))
+          (N.eqb c (Npos (XO (XO (XO (XO (XI (XO XH)))))))))
+        (N.eqb c (Npos (XO (XO (XO (XI (XI (XI XH)))))))))
+      (N.eqb c (Npos (XI (XO (XI (XO (XI (XI XH)))))))))
+    (N.eqb c (Npos (XI (XO (XI (XO (XI (XO XH))))))))
+
+(** val split_close : n list -> (n list * n list) option **)
+
+let rec split_close = function
+| [] -> None
+| c :: r ->
+  if N.eqb c (Npos (XI (XO (XI (XI (XI (XI XH)))))))
+  then Some ((c :: []), r)
+  else (match split_close r with
+        | Some p -> let (a, b) = p in Some ((c :: a), b)
+        | None -> None)
+
 (** val is_quantifier_start : n list -> bool **)
 
 let is_quantifier_start = function
@@ -11815,8 +11866,46 @@ let rec misused_rep fuel s =
                          if is_quantifier_start r
                          then (Npos (XO (XO (XI (XI (XI (XO
                                 XH))))))) :: (misused_rep f r)
-                         else (Npos (XO (XO (XI (XI (XI (XO
-                                XH))))))) :: (c2 :: (misused_rep f r2)))
+                         else if (&&) (takes_braces c2)
+                                   (match r2 with
+                                    | [] -> false
+                                    | n0 :: _ ->
+                                      (match n0 with
+                                       | N0 -> false
+                                       | Npos p ->
+                                         (match p with
+                                          | XI p0 ->
+                                            (match p0 with
+                                             | XI p1 ->
+                                               (match p1 with
+                                                | XO p2 ->
+                                                  (match p2 with
+                                                   | XI p3 ->
+                                                     (match p3 with
+                                                      | XI p4 ->
+                                                        (match p4 with
+                                                         | XI p5 ->
+                                                           (match p5 with
+                                                            | XH -> true
+                                                            | _ -> false)
+                                                         | _ -> false)
+                                                      | _ -> false)
+                                                   | _ -> false)
+                                                | _ -> false)
+                                             | _ -> false)
+                                          | _ -> false)))
+                              then (match split_close r2 with
+                                    | Some p ->
+                                      let (inner, rest) = p in
+                                      (Npos (XO (XO (XI (XI (XI (XO
+                                      XH))))))) :: (c2 :: (app inner
+                                                            (misused_rep f
+                                                              rest)))
+                                    | None ->
+                                      (Npos (XO (XO (XI (XI (XI (XO
+                                        XH))))))) :: (c2 :: (misused_rep f r2)))
+                              else (Npos (XO (XO (XI (XI (XI (XO
+                                     XH))))))) :: (c2 :: (misused_rep f r2)))
                  else c :: (misused_rep f r))
 
 (** val misused_repetition : n list -> n list **)
